@@ -345,6 +345,12 @@ func (dec *xmlDecoder) decodeXML(root *xmlNode) error {
 		started = true
 	}
 
+	// elements still open at the end of the input (lenient parsing): close them, so that what they hold is kept
+	for elem != nil && elem.parent != nil {
+		elem.parent.n.AddChild(elem.label, elem.n)
+		elem = elem.parent
+	}
+
 	return nil
 }
 
